@@ -171,3 +171,9 @@ func TestC06Cancel(t *testing.T) {
 		func(f map[string]bool) bool { return f["confirmed-double-spend"] },
 		txHistRule+"; oracle C06: a delivered unconfirmed tx that loses an outpoint to a tx confirmed in a processed block gets a cancelled+unsafe update and leaves the mempool, the block is processed normally; non-trivial = at least one delivered unconfirmed tx loses to a block tx; distinct by scenario hash")
 }
+
+func TestC11Restart(t *testing.T) {
+	txHistTest(t, "C11", "TestC11Restart", []string{"C11/", "TX/"}, true,
+		func(f map[string]bool) bool { return f["tracked-across-restart"] },
+		txHistRule+"; with clean restarts (save sequence of Run, new Node on the same storage, re-sync) at generated quiescent points; oracle C11: unconfirmed entries keep flags and ms first-seen time across the restart (white-box accessor), re-announcement does not deliver again, later confirmation is an update with a proof the independent verifier accepts, GetTx returns the transaction that was sent to handlers; non-trivial = at least one tracked unconfirmed tx crosses a restart; distinct by scenario hash")
+}
